@@ -2,6 +2,7 @@
 import Secp.Driver
 import Secp.Props.C05
 import Secp.Props.C16
+import Secp.Props.C18
 import Secp.Props.C08
 import Secp.Props.C09
 import Secp.Props.C19
